@@ -94,9 +94,15 @@ def sites(prog):
                 out.append(("method-arg", lambda rng, e=e: e["args"].__setitem__(0, wrong(INT, rng))))
             out.append(("unknown-method", lambda rng, e=e: e.__setitem__("m", "verif_nosuch")))
             out.append(("method-receiver", lambda rng, e=e: e.__setitem__("recv", E("bool", BOOL, v=True))))
+        if k == "bin" and e["op"] in ("&&", "||"):
+            out.append(("logic-operand-right", lambda rng, e=e: e.__setitem__("r", wrong(BOOL, rng))))
+            out.append(("logic-operand-left", lambda rng, e=e: e.__setitem__("l", wrong(BOOL, rng))))
+        if k == "bin" and e["op"] in ("==", "!=", "<", "<=", ">", ">="):
+            out.append(("comparison-operand", lambda rng, e=e: e.__setitem__(rng.choice(["l", "r"]), wrong(e["l"]["ty"], rng))))
         if k == "bin":
             t = e["l"]["ty"]
             side = "l"
+
             out.append(("binop-operand", lambda rng, e=e, t=t: e.__setitem__(rng.choice(["l", "r"]), wrong(t, rng))))
         if k == "field":
             out.append(("unknown-field", lambda rng, e=e: e.__setitem__("f", "verif_nosuch")))
@@ -192,6 +198,25 @@ def sites(prog):
                               {"k": "expr", "e": E("call", UNIT, False, True, fn="println", builtin=True,
                                                    args=[E("call", STR, fn="string_repr", builtin=True, args=[use])])}]
             out.append((kind, apply))
+
+    def logic_snippet(block):
+        for kind, side in (("logic-operand-right-snippet", "r"), ("logic-operand-left-snippet", "l")):
+            def apply(rng, block=block, side=side):
+                i = rng.randrange(len(block) + 1)
+                while i > 0 and block[i - 1]["k"] in ("break", "continue", "return"):
+                    i -= 1
+                i = min(i, max(0, len(block) - 1))
+                cmp = E("bin", BOOL, op="<", l=E("int", INT, v=1), r=E("int", INT, v=2))
+                bad = wrong(BOOL, rng)
+                e = E("bin", BOOL, op=rng.choice(["&&", "||"]), l=(bad if side == "l" else cmp), r=(bad if side == "r" else cmp))
+                block[i:i] = [{"k": "expr", "e": E("call", UNIT, False, True, fn="println", builtin=True,
+                                                   args=[E("call", STR, fn="string_repr", builtin=True, args=[e])])}]
+            out.append((kind, apply))
+
+    logic_snippet(prog["main"])
+    for f in prog["funs"]:
+        if f["body"]:
+            logic_snippet(f["body"])
 
     unit_value(prog["main"])
     for f in prog["funs"]:
